@@ -516,7 +516,7 @@ func (c *conductor) act(a string) bool {
 			c.waitFor(fmt.Sprintf("%d addHost callers returned from the closed pool map", n), func() bool {
 				return int(atomic.LoadInt64(&doneCnt)) >= n || c.g.maxID() > c.lastID
 			})
-			if h := gocql.VerifHostPools(c.s)[c.ip.String()]; h != nil {
+			if h := gocql.VerifHostPools(c.s)[c.ip.String()]; h != nil && (c.cur == nil || !c.cur.h.Same(h)) {
 				// a pool nobody will close: followed like any other pool, so that the monitors see what it holds
 				// when Session.Close has returned
 				c.cur = c.addPool(h)
